@@ -192,7 +192,11 @@ impl Tree {
     pub fn read_transaction(&self) -> ReadTransaction {
         // Increment the count. This will block any sync from starting between now and the point
         // where the read transaction is dropped.
+        #[cfg(feature = "verif-hooks")]
+        crate::verif::yield_point(15);
         self.read_transaction_counter.add_one();
+        #[cfg(feature = "verif-hooks")]
+        crate::verif::yield_point(16);
         let shared = self.shared.read();
         let inner = Arc::new(ReadTransactionInner {
             bbn_index: shared.bbn_index.clone(),
@@ -273,7 +277,11 @@ impl Tree {
             //            |
             //            but we exclude all transactions before this point as a simplification.
             // ```
+            #[cfg(feature = "verif-hooks")]
+            crate::verif::yield_point(13);
             read_transaction_counter.block_until_zero();
+            #[cfg(feature = "verif-hooks")]
+            crate::verif::yield_point(14);
 
             // It is safe for a read transaction to be created here, since it follows the conclusion
             // of the most recent sync and therefore references no logically free pages.
